@@ -150,11 +150,13 @@ func (tm *typesMap) newName(typs []types.Type) string {
 	funcName := tm.prefix
 	_, exists := tm.funcToTyps[funcName]
 	_, isreserved := tm.reserved[funcName]
+	// the name is cut between letters, not between the bytes of a letter.
+	letters := []rune(name)
 	for exists || isreserved {
-		if i > len(name) {
+		if i > len(letters) {
 			funcName = tm.prefix + "_" + name + strconv.Itoa(i)
 		} else {
-			funcName = tm.prefix + "_" + name[:i]
+			funcName = tm.prefix + "_" + string(letters[:i])
 		}
 		i++
 		_, exists = tm.funcToTyps[funcName]
